@@ -46,6 +46,23 @@ var (
 	BogusAlg = SigAlg{"bogus", asn1.ObjectIdentifier{1, 2, 3, 4, 5}, crypto.SHA256, "", false, true}
 )
 
+// OtherAlgOIDs: signature algorithm identifiers of the PKI world which this validator does not implement (legacy
+// digests, DSA, PSS, EdDSA, SHA-3, RIPEMD, BSI plain ECDSA, GOST, SM2, OIW aliases). A CRL naming one of them must be
+// refused - with an error, whatever a lookup table says about the digest.
+var OtherAlgOIDs = []asn1.ObjectIdentifier{
+	{1, 2, 840, 113549, 1, 1, 2}, {1, 2, 840, 113549, 1, 1, 3}, {1, 2, 840, 113549, 1, 1, 4}, {1, 2, 840, 113549, 1, 1, 10}, {1, 2, 840, 113549, 1, 1, 15}, {1, 2, 840, 113549, 1, 1, 16},
+	{1, 2, 840, 113549, 1, 1, 1}, {1, 2, 840, 10045, 2, 1}, {1, 2, 840, 10045, 4, 2}, {1, 2, 840, 10045, 4, 3},
+	{1, 2, 840, 10040, 4, 3}, {2, 16, 840, 1, 101, 3, 4, 3, 1}, {2, 16, 840, 1, 101, 3, 4, 3, 2}, {2, 16, 840, 1, 101, 3, 4, 3, 3}, {2, 16, 840, 1, 101, 3, 4, 3, 4},
+	{2, 16, 840, 1, 101, 3, 4, 3, 9}, {2, 16, 840, 1, 101, 3, 4, 3, 10}, {2, 16, 840, 1, 101, 3, 4, 3, 11}, {2, 16, 840, 1, 101, 3, 4, 3, 12},
+	{2, 16, 840, 1, 101, 3, 4, 3, 13}, {2, 16, 840, 1, 101, 3, 4, 3, 14}, {2, 16, 840, 1, 101, 3, 4, 3, 15}, {2, 16, 840, 1, 101, 3, 4, 3, 16},
+	{1, 3, 101, 112}, {1, 3, 101, 113},
+	{1, 3, 36, 3, 3, 1, 1}, {1, 3, 36, 3, 3, 1, 2}, {1, 3, 36, 3, 3, 1, 3}, {1, 3, 36, 3, 3, 1, 4},
+	{0, 4, 0, 127, 0, 7, 1, 1, 4, 1, 1}, {0, 4, 0, 127, 0, 7, 1, 1, 4, 1, 2}, {0, 4, 0, 127, 0, 7, 1, 1, 4, 1, 3}, {0, 4, 0, 127, 0, 7, 1, 1, 4, 1, 4}, {0, 4, 0, 127, 0, 7, 1, 1, 4, 1, 5}, {0, 4, 0, 127, 0, 7, 1, 1, 4, 1, 6},
+	{1, 2, 643, 2, 2, 3}, {1, 2, 643, 7, 1, 1, 3, 2}, {1, 2, 643, 7, 1, 1, 3, 3}, {1, 2, 156, 10197, 1, 501},
+	{1, 3, 14, 3, 2, 29}, {1, 3, 14, 3, 2, 3}, {1, 3, 14, 3, 2, 15}, {1, 3, 14, 3, 2, 27}, {1, 3, 14, 3, 2, 13},
+	{1, 2, 840, 113549, 2, 5}, {1, 3, 14, 3, 2, 26}, {2, 16, 840, 1, 101, 3, 4, 2, 1}, // bare digest identifiers (md5, sha1, sha256)
+}
+
 var SupportedAlgs = []SigAlg{SHA1RSA, SHA224RSA, SHA256RSA, SHA384RSA, SHA512RSA, SHA1EC, SHA224EC, SHA256EC, SHA384EC, SHA512EC}
 
 func DefaultAlg(kind string) SigAlg {
